@@ -18,3 +18,4 @@ impl<'a> IteratorSpecImpl for TokenIter<'a> {
         if 0 <= k < tokens_from(self.i, self.next_idx as int).len() { Some(tokens_from(self.i, self.next_idx as int)[k]) } else { None }
     }
 }
+
